@@ -33,6 +33,10 @@ fn tier_of(s: &str) -> Tier {
 fn main() {
     // the one environment variable the reference evaluator knows about (`env` / `$`)
     std::env::set_var("JV_FIXED", "fixed-value");
+    // a locale other than C: nothing in jawk's documentation makes the order of strings depend on it
+    std::env::set_var("LC_ALL", "en_US.UTF-8");
+    std::env::set_var("LC_COLLATE", "en_US.UTF-8");
+    std::env::set_var("LANG", "en_US.UTF-8");
     // the environment a process inherits need not be text: one variable whose value is not valid UTF-8 (reading any
     // OTHER variable must not care)
     {
